@@ -28,9 +28,9 @@ Rots  == IF Scope = 1 THEN {1, 6} ELSE {1, 6, 11}
 Dips  == IF Scope = 1 THEN {1, 2, 5} ELSE {1, 2, 5, 12}   \* 2 = 90 degrees = vertical
 SizesU == IF Scope = 1 THEN {1, 2} ELSE {1, 2, 3}
 SizesV == IF Scope = 1 THEN {1, 3} ELSE {1, 3}
-SizesW == IF Scope = 1 THEN {1} ELSE {1, 3}
+SizesW == {1, 3}
 CountsU == IF Scope = 1 THEN {1, 2} ELSE {1, 3}
-CountsV == IF Scope = 1 THEN {2} ELSE {1, 2}
+CountsV == {1, 2}
 DelimTabU == << <<0, 1, 3>>, <<0, -2>>, <<0, 2, 3, 5>> >>
 DelimTabV == << <<0, 2>>, <<0, -1, -2>>, <<0, 1, 4>> >>
 DelimTabZ == << <<0, -1>>, <<0, 1, 2>> >>
